@@ -455,7 +455,7 @@ def run(tier: str, seed: int) -> int:
     smax = 12 if tier == "quick" else 24
     traces = [random_trace(rng, i, seed, smax) for i in range(ntr)]
     chk.sample({"kind": "trace", "hdr": traces[0]["hdr"]["cfg"], "first_events": traces[0]["ev"][:2]})
-    validate(chk, traces, "random-executions")
+    validate(chk, traces, "random-executions", shards=8 if tier == "quick" else 16)
     enc = sum(1 for t in traces for e in t["ev"] if e["op"]["a"] == "encode")
     chk.extra["encode_events"] = enc
     chk.extra["reproducibility_reruns"] = sum(1 for t in traces for e in t["ev"] if e["op"]["a"] == "restore_gen")
